@@ -140,6 +140,16 @@ static void op(long c, long, vh::Tok& t)
     parse_and_print(text);
     free(text);
   }
+  else if(!strcmp(t.v[0], "pstr") && t.n >= 2)
+  {
+    // a string literal: the text is  "<content>"
+    size_t n, len; unsigned char* b = vh::unhex(t.v[1], n, 1);
+    unsigned char* q = (unsigned char*)malloc(n + 2);
+    q[0] = '"'; memcpy(q + 1, b, n); q[n + 1] = '"';
+    char* text = exact(q, n + 2, len); free(b); free(q);
+    parse_and_print(text);
+    free(text);
+  }
   else if(!strcmp(t.v[0], "strip") && t.n >= 2)
   {
     size_t n, len; unsigned char* b = vh::unhex(t.v[1], n, 1);
